@@ -12,6 +12,7 @@ mod d_lzma2;
 mod d_reader;
 mod d_reuse;
 mod d_stream;
+mod d_symtrace;
 mod d_total;
 mod d_xz;
 mod io;
@@ -100,6 +101,14 @@ fn main() {
             if let Some(p) = a.get("coding-export") {
                 d_lzma::replay_coding_export(p, &prop, seed, a.num("limit", 20000) as usize, &mut rep);
             }
+            let om = a.num("options-matrix", 0) as usize;
+            if om > 0 {
+                d_lzma::options_matrix(&prop, seed, om, &mut rep);
+            }
+            let mm = a.num("memlimit-matrix", 0) as usize;
+            if mm > 0 {
+                d_lzma::memlimit_matrix(&prop, seed, mm, &mut rep);
+            }
             let walks = a.num("walks", 0) as usize;
             if walks > 0 {
                 d_lzma::walks(&prop, seed, walks, a.num("walk-syms", 400) as usize, &mut rep);
@@ -167,6 +176,11 @@ fn main() {
         "total" => {
             let mut rep = Report::new("total");
             d_total::run(&prop, seed, a.num("from", 0), a.num("count", 20000), a.get("trace"), &mut rep);
+            finish(rep, &a);
+        }
+        "symtrace" => {
+            let mut rep = Report::new("symtrace");
+            d_symtrace::run(&prop, seed, &a.str("files", "/repo/tests/files"), a.num("cap", 20000) as usize, &a.str("trace", "/tmp/symtrace.ndjson"), &mut rep);
             finish(rep, &a);
         }
         "xzlib" => {
